@@ -594,32 +594,25 @@ class MultiSetup_PreGER(BaseSetup, GeometryMixin):
         For further information, see `scipy.signal.decimate
         <https://docs.scipy.org/doc/scipy/reference/generated/scipy.signal.decimate.html>`_.
         """
-        n = kwargs.get("n")
-        ftype = kwargs.get("ftype", "iir")
-        axis = kwargs.get("axis", 0)
-        zero_phase = kwargs.get("zero_phase", True)
+        axis = kwargs.pop("axis", 0)
 
         newdatasets = []
         Ndats = []
-        Ts = []
         for data in self.datasets:
-            newdata, _, _, Ndat, T = super()._decimate_data(
+            newdata, _, _, Ndat, _ = super()._decimate_data(
                 data=data,
                 fs=self.fs,
                 q=q,
-                n=n,
-                ftype=ftype,
                 axis=axis,
-                zero_phase=zero_phase,
                 **kwargs,
             )
             newdatasets.append(newdata)
             Ndats.append(Ndat)
-            Ts.append(T)
 
         Y = pre_multisetup(newdatasets, self.ref_ind)
         fs = self.fs / q
-        dt = 1 / self.fs
+        dt = 1 / fs
+        Ts = [dt * Ndat for Ndat in Ndats]
 
         self.datasets = newdatasets
         self.data = Y
@@ -672,6 +665,7 @@ class MultiSetup_PreGER(BaseSetup, GeometryMixin):
             newdatasets.append(newdata)
 
         Y = pre_multisetup(newdatasets, self.ref_ind)
+        self.datasets = newdatasets
         self.data = Y
 
     # method to detrend data
@@ -713,4 +707,5 @@ class MultiSetup_PreGER(BaseSetup, GeometryMixin):
             newdatasets.append(newdata)
 
         Y = pre_multisetup(newdatasets, self.ref_ind)
+        self.datasets = newdatasets
         self.data = Y
